@@ -7,3 +7,5 @@ for p in "$@"; do
   (cd /verif && ./check $p 2>&1 | grep -E "VIOLATION|KNOWN|TOOL-ERROR|^\[" | cut -c1-300)
 done
 git -C /repo checkout -- .
+# rebuild the harness against the restored tree so that later --no-build runs do not use the seeded binary
+(cd /verif/harness && cargo build --release --offline > /dev/null 2>&1)
